@@ -11,11 +11,12 @@ import MemchrModel.Driver.ShiftOrPair
 import MemchrModel.Driver.PackedPair
 import MemchrModel.Driver.Swar
 import MemchrModel.Driver.MemchrApi
+import MemchrModel.Driver.Memmem
 
 open Memchr Memchr.Driver
 
 def handlers : List (String → List String → Option String) :=
-  [handleGeneric, handleIsEqualRk, handleTwoWay, handlePrefilter, handleShiftOrPair, handlePackedPair, handleSwar, handleMemchrApi]
+  [handleGeneric, handleIsEqualRk, handleTwoWay, handlePrefilter, handleShiftOrPair, handlePackedPair, handleSwar, handleMemchrApi, handleMemmem]
 
 def step (line : String) : String :=
   match line.trimAscii.toString.splitOn " " with
